@@ -1,6 +1,8 @@
 import OpcuaVerif.Lemmas.EncRT
 import OpcuaVerif.Lemmas.EncLen
 import OpcuaVerif.Lemmas.EncNorm
+import OpcuaVerif.Lemmas.EncSchemaRT
+import OpcuaVerif.Generated.Schemas
 
 /-!
 C01 — Binary encoding round-trips every valid value exactly.  Property theorems only.
@@ -108,5 +110,38 @@ def sample2 : V :=
 example : WFV Opts.default 0 sample2 := by
   simp [sample2, WFV, WFDV, WFElems, WFScalar, WFDims, WFDVRest, WFOpt, V.tid, Scalar.tid,
     WFStr, WFBStr, WFNodeId, WFIdent, WFBody, Opts.default, utf8Valid]
+
+/-! ### generated request / response structures (translator T1) -/
+
+/-- **Round trip for every schema**: for every schema `t` (in particular each of the 283 in
+`Gen.schemas`: the 281 generated structures and the two hand-written headers) and every valid value
+`v` of it, decoding `encode v ++ r` yields `norm v` and leaves exactly `r`.  Arrays of structures,
+nested structures, enums, flag masks and embedded Variant / DataValue / DiagnosticInfo included. -/
+theorem schema_roundtrip (o : Opts) (cap : Nat) (hc : CapOK o cap) (t : Ty) (v : SVal) (fuel d : Nat)
+    (r : Bytes) (hw : WFS o d t v) (hf : frS v ≤ fuel) :
+    decS o cap fuel t d (encS t v ++ r) = .ok (normS v) r :=
+  rtS o cap fuel hc v t d r hw hf
+
+/-- `byte_len` = bytes written, for every schema -/
+theorem schema_enc_len (o : Opts) (t : Ty) (v : SVal) (d : Nat) (hw : WFS o d t v) :
+    (encS t v).length = lenS t v := lenS_eq o v t d hw
+
+/-- **Regenerated obligation**: in every generated `BinaryEncoder` impl, `byte_len`, `encode`,
+`decode` and the constructor expression of `decode` mention the fields in declaration order and
+treat each as the kind (one value / array) its declared type says — so the schema built from the
+declaration describes all three functions.  Re-checked against the source on every run. -/
+theorem schemas_regular : Gen.orders.all regular = true := by decide +kernel
+
+/-- the translator saw all 283 structures, each with its orders -/
+theorem schemas_complete :
+    Gen.schemas.length = 283 ∧ Gen.orders.map (·.1) = Gen.schemas.map (·.1) := by decide +kernel
+
+/-- every generated enum accepts in `decode` exactly its declared discriminants -/
+theorem enum_tables_regular : Gen.enumTables.all (fun e => e.2.1 == e.2.2) = true := by decide +kernel
+
+/-- non-vacuity: a valid `ReadValueId` (NodeId, attribute id, index range, data encoding) -/
+example : WFS Opts.default 0 Gen.tReadValueId
+    (.struct [.sc (.nodeId ⟨2, .str (some [97])⟩), .sc (.uint32 13), .sc (.str none), .sc (.qname 0 none)]) := by
+  simp [Gen.tReadValueId, WFS, WFFields, WFScalar, WFNodeId, WFIdent, WFStr, Scalar.tid, Opts.default, utf8Valid]
 
 end OpcuaVerif.C01
